@@ -214,6 +214,19 @@ def run_scenario(sc, info=None):
             events, _ = _read_log(srvA)
             info["event"] = _event_of(events, sc["at"])
             srvA.kill()
+            if sc.get("second"):
+                # crash again while the interrupted step is being repeated (same handler, another mutation), then recover for good
+                sec = sc["second"]
+                srvA2 = start_server(home_s, work, "srvA2", arm=sc["handler"], arm_call=1, crash={"at": sec["at"], "mode": sec["mode"]})
+                procs.append(srvA2)
+                cr = client(base, home_c, srvA2.uri, work, "cli1b", [["complete"]], sid=sid)
+                procs.append(cr)
+                cr.wait()
+                t0 = time.time()
+                while srvA2.p.poll() is None and time.time() - t0 < 2.0:
+                    time.sleep(0.02)
+                info["second_crashed"] = srvA2.p.poll() == 137
+                srvA2.kill()
             srvB = start_server(home_s, work, "srvB")
             procs.append(srvB)
             pr = asyncio.run(_probe(srvB.uri, sid))
@@ -346,8 +359,19 @@ def shards(tier):
         for dbi in dbs:
             base = scenario_base(s, dbi)
             dry = dry_run(base)
-            for sc in scenarios_for(base, dry):
-                out.append(sc)
+            scs = scenarios_for(base, dry)
+            out.extend(scs)
+            # double crashes: the server dies again while the interrupted upload is being repeated
+            servers = [sc for sc in scs if sc["component"] == "server" and sc["handler"] != "close_service"]
+            firsts = servers if (tier != "quick" and dbi == 0) else servers[1:4]
+            for sc in firsts:
+                same = [x for x in servers if x["handler"] == sc["handler"]]
+                picks = same if (tier != "quick" and s == "CJJ14.PiBas") else [same[1], same[len(same) // 2], same[-1]]
+                for x in picks:
+                    d = dict(sc)
+                    d["second"] = {"at": x["at"], "mode": x["mode"], "what": x["what"]}
+                    d["what"] = sc["what"] + " then " + x["what"] + "(" + x["mode"] + ")"
+                    out.append(d)
     # group into at most 16 shards, round robin
     n = 16
     groups = [[] for _ in range(n)]
@@ -369,7 +393,8 @@ def run_shard(spec, seed, tier):
                 opname = sc.get("op") or "%s#%d" % (sc["handler"], sc["arm_call"])
                 res.count([sc["base"]["scheme"], sc["component"], opname, sc["what"], sc["mode"], len(sc["base"]["db"])], info.get("crashed", False),
                           ["component:" + sc["component"], "op:" + opname, "mode:" + sc["mode"],
-                           "child_died_at_point" if info.get("crashed") else "point_not_reached"],
+                           "child_died_at_point" if info.get("crashed") else "point_not_reached"] + (
+                              ["double_crash", "second_child_died" if info.get("second_crashed") else "second_point_not_reached"] if sc.get("second") else []),
                           sample={"scheme": sc["base"]["scheme"], "component": sc["component"], "op": opname, "mutation": sc["what"],
                                   "at": sc["at"], "mode": sc["mode"]})
         except Violation as v:
